@@ -47,7 +47,7 @@ def absl(*items):
         elif k == 'int': out.append(Message(message_type=MT.INTERNAL, time=it[1]))
     return out
 def canon_abs(seq_abs):
-    return sorted((m.time, m.message_type.value, m.channel, m.note, m.velocity, m.numerator, m.denominator, m.key.value if m.key else None) for m in seq_abs._messages if m.message_type != MT.INTERNAL), (seq_abs._messages[-1].time if seq_abs._messages else 0)
+    return sorted((m.time, m.message_type.value, m.channel, m.note, m.velocity, m.numerator, m.denominator, m.key.value if m.key else None) for m in seq_abs._messages if m.message_type != MT.INTERNAL), max([m.time for m in seq_abs._messages] + [0])
 def notes_of(seq):
     """independent pairing oracle: per (channel,pitch) FIFO; returns sorted (c,p,on,dur)"""
     op, out = {}, []
@@ -177,6 +177,37 @@ def D17():
     a.quantise([6])
     cc = [m for m in a._messages if m.message_type == MT.CONTROL_CHANGE]; nn = [m for m in a._messages if m.message_type in (MT.NOTE_ON, MT.NOTE_OFF)]
     return None if len(cc) == 2 and len(nn) % 2 == 0 and not nn else f"quantise removed wrong indices: kept {[(m.message_type.value, m.time, m.note) for m in a._messages]}"
+
+@witness
+def D18():
+    from scoda.tokenisation.notelike_tokenisation import MultiTrackLargeVocabularyNotelikeTokeniser as Tk
+    t = Tk(num_tracks=1, note_values=[8, 96])
+    b1 = rseq(('ts', 4, 4), ('on', 60), 96, ('off', 60))        # a note filling the whole 4/4 bar
+    b2 = rseq(('ts', 4, 4), 8, ('on', 62), 8, ('off', 62), 80)
+    st = {}
+    toks = t.tokenise([b1], state_dict=st) + t.tokenise([b2], state_dict=st)
+    out = t.detokenise(toks)[0]
+    got = notes_of(out)
+    return None if (0, 62, 104, 8) in got else f"chunked tokenisation places the second bar's note wrongly: {got}"
+@witness
+def D19():
+    import mido, tempfile
+    mf = mido.MidiFile(); mf.ticks_per_beat = 120
+    tr = mido.MidiTrack(); mf.tracks.append(tr)
+    for m in (mido.Message('note_on', note=60, velocity=80, time=0), mido.Message('note_off', note=60, velocity=0, time=1),
+              mido.Message('note_on', note=60, velocity=80, time=7), mido.Message('note_off', note=60, velocity=0, time=97)):
+        tr.append(m)
+    with tempfile.TemporaryDirectory() as d:
+        mf.save(d + "/x.mid"); got = notes_of(Sequence.sequences_load(d + "/x.mid")[0])
+    return None if (0, 60, 2, 19) in got else f"note [2,21) of the file is lost after a zero-length note of the same pitch: loaded {got}"
+@witness
+def D20():
+    s = rseq(('on', 60), 24, ('off', 60), ('on', 62), 24, ('off', 62))
+    for m in s.messages_abs():
+        if m.message_type == MT.NOTE_OFF and m.note == 60: m.time = 72
+    a = canon_abs(s.abs); r_ = canon_abs(s.rel.to_absolute_sequence())
+    return None if a == r_ else "a time edit made while iterating messages_abs() makes the relative view disagree with the absolute one"
+
 
 if __name__ == "__main__":
     sel = sys.argv[1:] or list(W)
